@@ -448,6 +448,15 @@ func (c *FnCtx) modFrame(con *Contract, env *specEnv) map[string][]string {
 					}
 					hn, hs := c.elemHeap(stt.Elem())
 					addRef(hn, hs, app("s-arr", a.t))
+				case "elemsany":
+					// the backing array of a slice carried by an interface value: references are drawn
+					// from one counter, so the array lives at this reference in exactly one element heap
+					ref := c.refOf(a)
+					for _, h := range c.heapOrder {
+						if strings.HasPrefix(h, "HE_") {
+							addRef(h, c.heapSort[h], ref)
+						}
+					}
 				case "entries":
 					mt, ok := types.Unalias(a.ty).Underlying().(*types.Map)
 					if !ok {
